@@ -156,6 +156,9 @@ func (c *Case) pkgFlag(srcName string) string {
 		if c.Cfg.Custom {
 			return strings.ReplaceAll(filepath.Base(c.Dir), "-", "_")
 		}
+		if c.Cfg.Resets && !c.Cfg.Stub {
+			return "foo" // also the name of packages that signatures mention (a/foo, b/foo, d/bar)
+		}
 		return "other"
 	case 3:
 		return srcName + "_test"
